@@ -24,12 +24,22 @@ def normCB : Nat → C → Bool → Path
 
 def normPath (path : Path) : Path := path.flatMap fun cb => normCB 8 cb.1 cb.2
 
+/-- `a ≤ b` / `a < b` without any path fact: `b − a` is, as a polynomial, a non-negative (positive) constant
+    (`r − r`, `eps − (x − x)`, a literal) -/
+def isPosLit : E → Bool
+  | .lit n d => decide (0 < n) && d != 0
+  | _ => false
+def trivLE (a b : E) : Bool := slackNonneg (.sub b a)
+def trivLT (a b : E) : Bool := (E.sub b a).lits.any fun l => isPosLit l && polyEq (.sub b a) l
+def ordLE (np : Path) (a b : E) : Bool := pathLE np a b || trivLE a b
+def ordLT (np : Path) (a b : E) : Bool := pathLT np a b || trivLT a b
+
 /-- outcome of `c` implied by a path of atomic comparisons, in an ordered semantics -/
 def impliedAtom (np : Path) : C → Option Bool
-  | .lt a b => if pathLT np a b then some true else if pathLE np b a then some false else none
-  | .le a b => if pathLE np a b then some true else if pathLT np b a then some false else none
-  | .eq a b => if pathLT np a b || pathLT np b a then some false
-               else if pathLE np a b && pathLE np b a then some true else none
+  | .lt a b => if ordLT np a b then some true else if ordLE np b a then some false else none
+  | .le a b => if ordLE np a b then some true else if ordLT np b a then some false else none
+  | .eq a b => if ordLT np a b || ordLT np b a then some false
+               else if ordLE np a b && ordLE np b a then some true else none
   | _ => none
 
 /-- outcome of `c` implied by the decisions on `path`: the same decision (operands up to `polyEq`) was
